@@ -19,8 +19,6 @@ HARNESSES = {
                    ldflags="-Wl,--wrap=ares_tvnow -Wl,--wrap=getenv -Wl,--wrap=srand"),
     "cfg": dict(srcs=["harness/cfg/cfg.c"], flavor="asan-det",
                 ldflags="-Wl,--wrap=fopen -Wl,--wrap=stat -Wl,--wrap=getenv -Wl,--wrap=ares_tvnow"),
-    "etstress": dict(srcs=["harness/etstress/etstress.c", "harness/refdns/refdns.c"], flavor="tsan",
-                     cflags="-I%s/harness/refdns" % VERIF),
 }
 
 
